@@ -1715,6 +1715,12 @@ class Optimizer:
             / (1 - self.consts_for_optimizer["MEAT_WASTE_RETAIL"] / 100)
             <= self.time_consts["max_consumed_culled_kcals_each_month"][month]
         )
+        # meat eaten so far (the total minus what is left) cannot exceed the meat slaughtered so far
+        conditions["Meat_Eaten_Cumulative_Maximum"] = (
+            self.consts_for_optimizer["meat_summed_consumption"]
+            - variables["meat_end"][month]
+            <= self.time_consts["max_consumed_culled_kcals_each_month"][month]
+        )
 
         return conditions
 
